@@ -81,7 +81,8 @@ type client struct {
 
 	conn ClientConn
 
-	closeCh chan struct{}
+	closeCh   chan struct{}
+	closeOnce sync.Once
 
 	// custom ping packet handler
 	onPing func(*protocol.Packet)
@@ -436,16 +437,21 @@ func (c *client) AfterReconnected(fn func()) {
 
 // Close used to close conn between server
 func (c *client) Close(err error) error {
-	c.Logger.Info("close client")
-	close(c.closeCh)
-	c.RLock()
-	if c.conn != nil {
-		c.conn.Close(errors.New("close by client"))
-	}
-	c.RUnlock()
-	if c.onClose != nil {
-		c.onClose(err)
-	}
+	// Close is final: a second Close (by the user, or by the give-up path of
+	// the reconnect loop after the user closed the client) is a no-op instead
+	// of closing closeCh twice
+	c.closeOnce.Do(func() {
+		c.Logger.Info("close client")
+		close(c.closeCh)
+		c.RLock()
+		if c.conn != nil {
+			c.conn.Close(errors.New("close by client"))
+		}
+		c.RUnlock()
+		if c.onClose != nil {
+			c.onClose(err)
+		}
+	})
 	return nil
 }
 
